@@ -3,7 +3,9 @@ package c14
 import (
 	"crypto/x509"
 	"fmt"
+	"net/http"
 	"os"
+	"strings"
 	"sync/atomic"
 	"testing"
 	"time"
@@ -12,6 +14,8 @@ import (
 	"verifharness/gen"
 	"verifharness/world"
 
+	"github.com/muesli/cache2go"
+	"golang.org/x/crypto/ocsp"
 	"pgregory.net/rapid"
 )
 
@@ -26,6 +30,11 @@ type Case struct {
 	Instances  int    `json:"instances"`   // 1..2 checker instances used alternately
 	FailFirst  bool   `json:"fail_first"`  // the very first query fails (HTTP 500), must not be cached
 	CAKey      string `json:"ca_key"`
+	// Concurrent: before the timed pattern, two different certificates are checked at the same time on one
+	// instance while the responder of the first answers slowly
+	Concurrent bool `json:"concurrent"`
+	// AgeHours: age of thisUpdate in the response used for the white-box lifetime check (nextUpdate = now + 1 h)
+	AgeHours int `json:"age_hours"`
 }
 
 func genCase(t *rapid.T) Case {
@@ -38,6 +47,8 @@ func genCase(t *rapid.T) Case {
 		Instances:  rapid.IntRange(1, 2).Draw(t, "inst"),
 		FailFirst:  rapid.IntRange(0, 3).Draw(t, "failfirst") == 0,
 		CAKey:      rapid.SampledFrom([]string{"p256a", "rsa2048a"}).Draw(t, "cakey"),
+		Concurrent: rapid.Bool().Draw(t, "concurrent"),
+		AgeHours:   rapid.SampledFrom([]int{0, 1, 6, 48}).Draw(t, "age"),
 	}
 	c.Reads = rapid.IntRange(6, 14).Draw(t, "reads")
 	return c
@@ -104,6 +115,14 @@ func runCase(c Case, x *ev.Ctx) error {
 		rb = world.NewResponder(o, "/b", pb, world.OCSPAnswer{Kind: "revoked", NextUpdate: c.NextUpdate})
 		chainsB = [][]*x509.Certificate{{leafB.Cert, caB.Cert}}
 	}
+	if err := whiteBoxLifetime(c, base, o, chk[0], x); err != nil {
+		return err
+	}
+	if c.Concurrent {
+		if err := concurrentCerts(c, base, o, x); err != nil {
+			return err
+		}
+	}
 	status := "good"
 	var lastFetchDone time.Time // time after the read that last hit the responder returned (entry creation is earlier)
 	stale, fresh, hits := 0, 0, 0
@@ -162,13 +181,106 @@ func runCase(c Case, x *ev.Ctx) error {
 	return nil
 }
 
+// whiteBoxLifetime: lifetimes of nextUpdate + 15 min cannot be waited out, so the stored lifetime of the cache entry is
+// read from the cache library (table "ocsp_client", public LifeSpan of the item): it must not exceed
+// nextUpdate - now + 15 min, however old thisUpdate is. Skipped silently if the table or the item cannot be found.
+func whiteBoxLifetime(c Case, base string, o *world.Origin, chk world.Checker, x *ev.Ctx) error {
+	ca := gen.Issue(gen.CertSpec{Key: c.CAKey, Subject: gen.CN(base + " wb ca"), SerialHex: "1001", IsCA: true}, nil)
+	leaf := gen.Issue(gen.CertSpec{Key: "p256f", Subject: gen.CN(base + " wb client"), SerialHex: "6161", OCSP: []string{o.URL("/wb")}}, ca)
+	parties := world.NewOCSPParties(base+"wb", ca, leaf)
+	age := time.Duration(c.AgeHours) * time.Hour
+	next := time.Now().Add(time.Hour)
+	o.Set("/wb", func(w http.ResponseWriter, r *http.Request, body []byte, n int) {
+		der, err := ocsp.CreateResponse(ca.Cert, ca.Cert, ocsp.Response{Status: ocsp.Good, SerialNumber: leaf.Cert.SerialNumber,
+			ThisUpdate: time.Now().Add(-age - time.Minute), NextUpdate: next}, ca.Key.Signer)
+		if err != nil {
+			panic(err)
+		}
+		w.Write(der)
+	})
+	_ = parties
+	before := time.Now()
+	if v := world.Ask(chk, [][]*x509.Certificate{{leaf.Cert, ca.Cert}}); v.Kind != "ok" {
+		return fmt.Errorf("white-box probe: authentic good answer got %v", v)
+	}
+	found := false
+	var life time.Duration
+	cache2go.Cache("ocsp_client").Foreach(func(key interface{}, item *cache2go.CacheItem) {
+		if !item.CreatedOn().Before(before) && strings.Contains(fmt.Sprint(key), leaf.Cert.SerialNumber.String()) {
+			found = true
+			life = item.LifeSpan()
+		}
+	})
+	if !found {
+		x.Class("white-box-item-not-found")
+		return nil
+	}
+	x.Class("white-box-lifetime-checked")
+	limit := time.Until(next) + 15*time.Minute + time.Since(before) + 5*time.Second
+	if life > limit {
+		return fmt.Errorf("cache entry lifetime %v exceeds nextUpdate - now + 15 min = %v (thisUpdate was %v old): the entry would be served after nextUpdate plus the clock-skew allowance", life, limit, age)
+	}
+	return nil
+}
+
+// concurrentCerts: certificate A (good, slow responder) and certificate B (revoked) are checked at the same time on one
+// instance; afterwards B must still be reported revoked and A good (each from its own answer or its own cache entry).
+func concurrentCerts(c Case, base string, o *world.Origin, x *ev.Ctx) error {
+	ca := gen.Issue(gen.CertSpec{Key: c.CAKey, Subject: gen.CN(base + " cc ca"), SerialHex: "1001", IsCA: true}, nil)
+	leafA := gen.Issue(gen.CertSpec{Key: "p256f", Subject: gen.CN(base + " cc a"), SerialHex: "7171", OCSP: []string{o.URL("/cca")}}, ca)
+	leafB := gen.Issue(gen.CertSpec{Key: "p256f", Subject: gen.CN(base + " cc b"), SerialHex: "7272", OCSP: []string{o.URL("/ccb")}}, ca)
+	release := make(chan struct{})
+	arrived := make(chan struct{}, 4)
+	mk := func(leaf *gen.Cert, status int, slow bool) world.Handler {
+		return func(w http.ResponseWriter, r *http.Request, body []byte, n int) {
+			if slow && n == 1 {
+				arrived <- struct{}{}
+				<-release
+			}
+			tpl := ocsp.Response{Status: status, SerialNumber: leaf.Cert.SerialNumber, ThisUpdate: time.Now().Add(-time.Minute)}
+			if status == ocsp.Revoked {
+				tpl.RevokedAt = time.Now().Add(-time.Hour)
+			}
+			der, _ := ocsp.CreateResponse(ca.Cert, ca.Cert, tpl, ca.Key.Signer)
+			w.Write(der)
+		}
+	}
+	o.Set("/cca", mk(leafA, ocsp.Good, true))
+	o.Set("/ccb", mk(leafB, ocsp.Revoked, false))
+	chk := world.NewOCSPChecker(world.OCSPOpts{Strict: true, Cache: 30 * time.Second})
+	chA, chB := [][]*x509.Certificate{{leafA.Cert, ca.Cert}}, [][]*x509.Certificate{{leafB.Cert, ca.Cert}}
+	resA := make(chan world.Verdict, 1)
+	go func() { resA <- world.Ask(chk, chA) }()
+	select {
+	case <-arrived:
+	case <-time.After(10 * time.Second):
+		close(release)
+		return fmt.Errorf("setup: responder of certificate A was never asked")
+	}
+	vb := world.Ask(chk, chB) // B is checked while A's query is in flight
+	close(release)
+	va := <-resA
+	if va.Kind != "ok" || vb.Kind != "revoked" {
+		return fmt.Errorf("concurrent checks: A (good) -> %v, B (revoked) -> %v", va, vb)
+	}
+	// second look: each certificate must get ITS status (from its own cache entry or a new query)
+	if v := world.Ask(chk, chB); v.Kind != "revoked" {
+		return fmt.Errorf("after certificate A (good) and certificate B (revoked) were checked at the same time, B is answered %v: a status obtained for another certificate was returned for it", v)
+	}
+	if v := world.Ask(chk, chA); v.Kind != "ok" {
+		return fmt.Errorf("after concurrent checks certificate A (good) is answered %v", v)
+	}
+	x.Class("concurrent-certificates")
+	return nil
+}
+
 var spec = ev.Spec[Case]{
 	ID:  "C14",
 	Gen: genCase,
 	Run: runCase,
-	Rule: "rapid draws an access pattern: default cache duration D in {0, 300, 400, 600 ms}, read period in {D/5, D/2, 2D}, 6..14 reads alternating over 1..2 checker instances, responder flip good->revoked after 1..3 reads, nextUpdate in {absent, already past}, optionally a first query that fails, and a twin certificate with identical subject and serial from another issuer whose name differs in CN / a DC component / an added emailAddress / RDN order. Oracles: (a) a read that STARTS more than D + 60 ms after the answer now cached was obtained must ask the responder again (upper bound only: slowness adds time and can never cause a failure); a read that asked the responder returns the responder's current status; (b) the twin triggers a request to its own responder and gets its own verdict; (c) with D = 0 and no usable nextUpdate every read asks the responder; (d) after a failed query the next read asks again. Every case is non-trivial; distinct by the full pattern.",
+	Rule: "rapid draws an access pattern: default cache duration D in {0, 300, 400, 600 ms}, read period in {D/5, D/2, 2D}, 6..14 reads alternating over 1..2 checker instances, responder flip good->revoked after 1..3 reads, nextUpdate in {absent, already past}, optionally a first query that fails, and a twin certificate with identical subject and serial from another issuer whose name differs in CN / a DC component / an added emailAddress / RDN order. Oracles: (a) a read that STARTS more than D + 60 ms after the answer now cached was obtained must ask the responder again (upper bound only: slowness adds time and can never cause a failure); a read that asked the responder returns the responder's current status; (b) the twin triggers a request to its own responder and gets its own verdict; (c) with D = 0 and no usable nextUpdate every read asks the responder; (d) after a failed query the next read asks again; (e) white-box: after an authentic answer with nextUpdate = now + 1 h and a thisUpdate 0 / 1 / 6 / 48 h old, the lifetime stored with the cache item (public LifeSpan of the cache library's item) is at most nextUpdate - now + 15 min; (f) in half of the cases two different certificates are first checked concurrently on one instance while the first responder is held, and each must afterwards get its own status. Every case is non-trivial; distinct by the full pattern.",
 	Assumptions: []string{
-		"lifetimes of nextUpdate + 15 min cannot be waited out; only the default-duration lifetime is exercised in time",
+		"lifetimes of nextUpdate + 15 min cannot be waited out; the default-duration lifetime is exercised in time, the nextUpdate lifetime is read white-box from the cache library's item (skipped if the item cannot be found)",
 		"wall-clock: only lower bounds on elapsed time are used, so a slow machine cannot produce a violation",
 	},
 }
